@@ -43,8 +43,8 @@ def binary_paint_shop_problem(
     """
 
     car_counter = {car: 0 for car in car_sequence}
-    if len(car_sequence) != 2 * len(car_counter):
-        raise ValueError("Car labels are not unique")
+    if any(count != 2 for count in collections.Counter(car_sequence).values()):
+        raise ValueError("Each car must appear exactly twice in the sequence")
 
     bqm = dimod.BinaryQuadraticModel(vartype=dimod.SPIN)
     for car1, car2 in zip(car_sequence, car_sequence[1:]):
